@@ -397,6 +397,26 @@ func TestBIP340Batch(t *testing.T) {
 			items = append(items, b)
 			sigs, pks, msgs = append(sigs, b.sig), append(pks, b.pk), append(msgs, m)
 		}
+		// Low-weight tail of LARGE batches. BatchVerify has no size limit; its two multi-scalar
+		// multiplications (curve.MultiScalarMul -> impl.MultiScalarMulLowLevel) are naive up to 7 points
+		// and bucketed above with window width bits.Len(n): 4 bits for 8..15, 5 for 16..31, ... 8 for
+		// 128..255, 9 (windows straddling three scalar bytes) from 256 on. Signing and model-checking a
+		// triple costs tens of milliseconds, so a large batch repeats the 1..5 honest triples drawn above
+		// (a repeated valid triple keeps the batch valid - the "dup-triple" alteration relies on the same
+		// fact); the alterations below then hit one position of the large batch.
+		if rapid.IntRange(1, 6).Draw(t, "largeBatch") == 6 {
+			K := rapid.SampledFrom([]int{7, 8, 9, 15, 16, 17, 31, 32, 33, 63, 64, 65, 127, 128, 129, 255, 256, 257, 300}).Draw(t, "batchSize")
+			off := rapid.IntRange(0, k-1).Draw(t, "poolOffset")
+			var s2 []*bip340.Signature
+			var p2 []*bip340.PublicKey
+			var m2 [][]byte
+			var i2 []*bipSigned
+			for i := 0; i < K; i++ {
+				j := (i + off) % k
+				s2, p2, m2, i2 = append(s2, sigs[j]), append(p2, pks[j]), append(m2, bytes.Clone(msgs[j])), append(i2, items[j])
+			}
+			sigs, pks, msgs, items, k = s2, p2, m2, i2, K
+		}
 		alt := flatPick(t, "alt", []string{"none", "none", "msg", "s+1", "R-other", "pk-other", "swap-sigs", "swap-msgs", "length-mismatch", "empty", "dup-triple"})
 		at := rapid.IntRange(0, k-1).Draw(t, "at")
 		want := true
@@ -432,10 +452,17 @@ func TestBIP340Batch(t *testing.T) {
 			}
 			// still valid only if the two triples were interchangeable
 			want = true
+			verdicts := map[string]bool{} // a large batch repeats few triples: ask the model once per distinct triple
 			for i := range sigs {
 				sb, _ := bip340.SerializeSignature(sigs[i])
 				pb, _ := bip340.SerializePublicKey(pks[i])
-				if !refcurve.BIP340Verify(pb, msgs[i], sb) {
+				key := string(sb) + "|" + string(pb) + "|" + string(msgs[i])
+				v, ok := verdicts[key]
+				if !ok {
+					v = refcurve.BIP340Verify(pb, msgs[i], sb)
+					verdicts[key] = v
+				}
+				if !v {
 					want = false
 				}
 			}
